@@ -4,7 +4,7 @@ C05, part 4: `Frag consts code` — the well-formedness invariant of a compiled 
 under concatenation and under the emit schemes of compiler.go (and/or, ?:, emitCond, emitLoop, the
 early-exit loops of all/none/any).
 -/
-namespace ExprModel
+namespace ExprModel.Bc
 
 def instrs (xs : List LInstr) : List Instr := xs.map (·.instr)
 
@@ -99,4 +99,4 @@ theorem Frag.plain {c : Array Val} (l : Loc) (op : Op) (h : op.hasArg = false) (
     Frag c [li l op] :=
   Frag.one l op 0 (argOk_noarg c op 0 h) (by simp [canonOk]) (by cases op <;> simp_all [Op.isJump, Op.argClass, Op.hasArg]) h1 h2
 
-end ExprModel
+end ExprModel.Bc
